@@ -66,6 +66,11 @@ CHECKS = {
    technique="TLA+ spec Crash.tla (storage operations refined into persisted write steps, Crash enabled at every step boundary) model-checked with TLC; every crashed state replayed by killing a child process at the matching probe (hook H2) and re-opening the account",
    text="Crash.tla refines create/update/delete of a secret and folder compaction into the writes the code performs on the persisted vault, the folder event log, its snapshot and the account log, for the file-system and the sqlite backend; TLC enumerates pre-history x crashing operation x step boundary and shows that the intended design (atomic log replacement, vault reconciled with the log on open) satisfies OpensAfterCrash, LogBeforeOrAfter and FolderEqReplayAfterRecover. Each crashed state of the code-faithful model becomes one process-level test: a child performs the pre-history on a real account, arms the probe of that boundary and dies by abort(); the parent re-opens through the normal path and checks that the account opens, the folder log is the one before or after the operation, reduce(log) = served = persisted and the integrity report is clean. Failures at crash points listed in known_findings.jsonl (keyed by backend, crash point and failure class) print KNOWN-FINDING; any other is a VIOLATION.",
    note="Process death between writes only (completed writes are applied in order); torn writes inside one write() and power-loss reordering are not enumerated; operations covered: secret create/update/delete, compaction (folder create/delete, merges, key changes have probes but are not yet in Crash.tla)."),
+ "C11": dict(
+   level="model_checking", design="DESIGN.md 6.7, 7 (C11)",
+   technique="TLA+ spec ServerAuth.tla (endpoint x credential form x access configuration x trust history) model-checked with TLC; every reachable combination sent as a hand-built HTTP request to a live sos_server on loopback with before/after comparison of the account's server state",
+   text="ServerAuth.tla decides for every access configuration (none, allow, allow-without-A, deny, deny-other, allow+deny), trust history (second device trusted, then revoked through the device event log), API endpoint (16 route/method pairs incl. files and the websocket upgrade) and credential form (none, malformed, unknown key, another account's device key, trusted key over other bytes / another path, legacy token formats, missing account header, trusted key, second device) whether a request may be accepted; TLC checks AcceptOnlyIfTrusted, DenyListWins and RefusedUnchanged on all reachable combinations. Each is replayed against a real server process-internal instance over HTTP: refused combinations must answer 400/401/403 and leave sync status, device set and every file under the server data directory unchanged; accepted combinations must not be rejected by authorisation; the server must still answer at the end.",
+   note="Accepted-expected cases are not sent for DELETE /sync/account and the websocket upgrade; the route table is a constant of MC_ServerAuth.tla (a newly added unauthenticated route would not be noticed); Ed25519 unforgeability."),
 }
 
 NOT_YET = {
